@@ -4,9 +4,25 @@ Property theorems about the transition system `IrVerif.Writer` (Model/Writer.lea
 quantify over every configuration (worker count, capacity, tensor sizes / objects / failing
 tensors, job structure) satisfying `WF` and over every reachable state, i.e. every schedule.
 Helper developments: Lemmas/Writer*.lean.
+
+Deepening round (end of the `IrVerif.WriterN` part):
+* `planCfg` (Model/WriterPlan.lean) builds the configuration from the arguments of the save with C07's
+  layout model and the preallocation step; `C09_plan_layout` (Layout, Prealloc) and `C09_plan_wf` (WF,
+  the pool tree of a sharded save included) hold for every input, so `C09_bytes_serial_layout`,
+  `C09_bytes_serial_layout_sharded` and `C09_bytes_serial_layout_c07` (conclusion in C07's file model +
+  read-back) have no hypothesis about the configuration.
+* `callback=None` is the macro-step system `stepNC` (Model/WriterNC.lean): `C09_nocb_refines` (its
+  schedules are model schedules, so every safety theorem applies), `C09_nocb_locks_free`,
+  `C09_nocb_deadlock_free`, `C09_nocb_schedule_bounded`.
+* failing tensors: every theorem quantifies over arbitrary `fails` / `cbFails` flags, i.e. any number of
+  failing tensors in any shards (`exTwoFail` is a witness with two failing shards).
 -/
 import IrVerif.Lemmas.WriterFiles
 import IrVerif.Lemmas.WriterNFiles
+import IrVerif.Lemmas.WriterNC
+import IrVerif.Lemmas.WriterPlanWF
+import IrVerif.Lemmas.WriterLayoutSerial
+import IrVerif.Lemmas.WriterPlanShardsWF
 namespace IrVerif.Writer
 
 theorem reachable_inv {cfg : Cfg} (wf : WF cfg) {s : State} (h : Reachable cfg s) :
@@ -685,5 +701,207 @@ example : (run (exNested true) (init (exNested true))
      .owner 2 4, .task 3, .task 3, .task 3, .task 3, .task 3, .task 3, .task 3, .owner 2 5, .exit 2,
      .exit 2, .owner 2 0, .owner 0 0, .exit 0, .exit 0, .owner 0 0]).map
       (fun s => (s.pl 0).owner) = some (.closed true) := by decide
+
+
+/-! ### Layout and start image derived from C07 (deepening round)
+
+`planCfg` (Model/WriterPlan.lean) builds the writer configuration from the arguments of the save only:
+offsets by C07's `Layout.computeInfos`, shards by `Layout.shardRaw`, start image of a file written by
+`_write_parallel` = `truncate(total_size)` of the freshly opened file, of a file written by
+`_write_serial` = the freshly opened file.  `Layout` and `Prealloc` — hypotheses of `C09_bytes_serial`
+and `C09_bytes_serial_wb` — are theorems about it. -/
+
+/-- **C09_plan_layout**: for every save (any tensors, shard limit, alignment, worker count, budget) the
+    byte ranges of the configuration are pairwise disjoint inside every data file (from
+    `Layout.C07_disjoint`), every tensor goes to an existing file, and every start image is all zeros
+    and exactly as long as the end of the last non-empty tensor of that file (from the preallocation
+    step and `Layout.totalSize_eq_layoutEnd`), or empty. -/
+theorem C09_plan_layout {ts : List TSpec} {maxShard al : Option Nat} {athr workers capacity : Nat}
+    {cfg : Cfg} (h : planCfg ts maxShard al athr workers capacity = some cfg) :
+    Layout cfg ∧ Prealloc cfg :=
+  ⟨planCfg_layout h, planCfg_prealloc h⟩
+
+/-- **C09_plan_wf_single**: when the save writes one data file (no shard limit, or everything fits one
+    shard) the configuration is well formed. -/
+theorem C09_plan_wf_single {ts : List TSpec} {maxShard al : Option Nat} {athr workers capacity : Nat}
+    {cfg : Cfg} (h : planCfg ts maxShard al athr workers capacity = some cfg)
+    (h1 : (shardsOf ts maxShard al athr).length ≤ 1) : WF cfg := by
+  simp only [planCfg, h1, if_true] at h
+  split at h
+  · rename_i hc
+    cases h
+    exact planSingle_wf ts al athr workers capacity (by omega) (by omega)
+  · simp at h
+
+/-- **C09_bytes_serial_layout**: the combined theorem for a save into ONE data file.  Inputs: the
+    tensors (bytes, object identities, reservations, failure flags), the shard limit, the alignment
+    parameters, the worker count, the budget and a schedule — nothing else, in particular no
+    hypothesis about offsets, disjointness, the start image or the well-formedness of the
+    configuration.  Whenever the concurrent save returns normally, after any schedule, the data file
+    is byte-identical to the one the serial writer produces from an empty file. -/
+theorem C09_bytes_serial_layout (ts : List TSpec) (maxShard al : Option Nat) (athr workers capacity : Nat)
+    {cfg : Cfg} (h : planCfg ts maxShard al athr workers capacity = some cfg)
+    (h1 : (shardsOf ts maxShard al athr).length ≤ 1)
+    (ls : List Label) {s : State} (hrun : run cfg (init cfg) ls = some s)
+    (hm : (s.pl 0).owner = .closed false) :
+    s.files = serialFiles (cfgEmpty cfg) :=
+  C09_bytes_serial_wb (C09_plan_wf_single h h1) (planCfg_layout h) (planCfg_prealloc h)
+    (reachable_of_run ls .init hrun) hm
+
+/-- **C09_bytes_serial_layout_c07**: the same save (one data file), stated with C07's file model only:
+    after any schedule a concurrent save that returns normally has left exactly
+    `Layout.serialImage (Layout.writesOf …)` — the image C07's serial writer produces for the layout C07
+    computes — and therefore (C07_readback_layout) every tensor reads back from its recorded
+    `(offset, length)`. -/
+theorem C09_bytes_serial_layout_c07 (ts : List TSpec) (maxShard al : Option Nat) (athr workers capacity : Nat)
+    {cfg : Cfg} (h : planCfg ts maxShard al athr workers capacity = some cfg)
+    (h1 : (shardsOf ts maxShard al athr).length ≤ 1)
+    (ls : List Label) {s : State} (hrun : run cfg (init cfg) ls = some s)
+    (hm : (s.pl 0).owner = .closed false) :
+    s.files = [Layout.serialImage (Layout.writesOf al athr (ts.map (·.data)))] ∧
+    ∀ w ∈ Layout.writesOf al athr (ts.map (·.data)),
+      Layout.readAt ((s.files.getD 0 [])) w.1 w.2.length = w.2 := by
+  have hf := C09_bytes_serial_layout ts maxShard al athr workers capacity h h1 ls hrun hm
+  have hc : cfg = planSingle ts al athr workers capacity := by
+    simp only [planCfg, h1, if_true] at h
+    split at h
+    · cases h; rfl
+    · simp at h
+  subst hc
+  rw [planSingle_serial_eq_C07] at hf
+  refine ⟨hf, fun w hw => ?_⟩
+  rw [hf]
+  exact (Layout.C07_readback_layout al athr (ts.map (·.data)) _ (List.Perm.refl _) 0 w hw).2
+
+
+/-- **C09_plan_wf**: the configuration of EVERY concurrent save is well formed — also the tree of
+    pools of a sharded save (shard drivers, inner writers, job and pool numbering), using
+    `Layout.C07_shards_partition` (the shards partition the tensors, none is empty). -/
+theorem C09_plan_wf {ts : List TSpec} {maxShard al : Option Nat} {athr workers capacity : Nat}
+    {cfg : Cfg} (h : planCfg ts maxShard al athr workers capacity = some cfg) : WF cfg := by
+  by_cases h1 : (shardsOf ts maxShard al athr).length ≤ 1
+  · exact C09_plan_wf_single h h1
+  · simp only [planCfg, h1, if_false] at h
+    split at h
+    · rename_i hw
+      cases h
+      cases maxShard with
+      | none => simp [shardsOf] at h1
+      | some m =>
+          have hts : ts ≠ [] := by
+            intro e; subst e
+            simp [shardsOf, Layout.shardRaw, Layout.shardRawGo] at h1
+          have hp := Layout.C07_shards_partition TSpec.nbytes m al athr ts
+          exact planSharded_wf ts _ al athr workers capacity (by omega) (by omega)
+            (hp.2 hts) hp.1
+    · simp at h
+
+/-- **C09_bytes_serial_layout_sharded**: the combined theorem for every save, sharded ones with their
+    tree of pools included: inputs are the tensors, the shard limit, the alignment parameters, the
+    worker count, the budget and a schedule; no hypothesis about the configuration is left.  Every
+    data file of a concurrent save that returns normally equals the serially written one. -/
+theorem C09_bytes_serial_layout_sharded (ts : List TSpec) (maxShard al : Option Nat)
+    (athr workers capacity : Nat) {cfg : Cfg} (h : planCfg ts maxShard al athr workers capacity = some cfg)
+    (ls : List Label) {s : State} (hrun : run cfg (init cfg) ls = some s)
+    (hm : (s.pl 0).owner = .closed false) :
+    s.files = serialFiles (cfgEmpty cfg) :=
+  C09_bytes_serial_wb (C09_plan_wf h) (planCfg_layout h) (planCfg_prealloc h)
+    (reachable_of_run ls .init hrun) hm
+
+/-! ### The writer without a callback (`callback=None`), Model/WriterNC.lean -/
+
+/-- **C09_nocb_refines**: every schedule of the writer without a callback is, step by step expanded,
+    a schedule of the general model ending in the same state; hence every state it reaches is
+    reachable in the model and `C09_budget`, `C09_tensor_mutex`, `C09_error_quiescent`,
+    `C09_error_reported`, `C09_bytes_serial*` apply to it unchanged. -/
+theorem C09_nocb_refines {cfg : Cfg} (ls : List Label) {s : State}
+    (h : runNC cfg (init cfg) ls = some s) :
+    (∃ ls', ls.length ≤ ls'.length ∧ run cfg (init cfg) ls' = some s) ∧ Reachable cfg s := by
+  obtain ⟨ls', hlen, hr⟩ := runNC_run ls h
+  exact ⟨⟨ls', hlen, hr⟩, reachable_of_run ls' .init hr⟩
+
+theorem reachableNC_of_runNC {cfg : Cfg} : ∀ (ls : List Label) {s s' : State}, ReachableNC cfg s →
+    runNC cfg s ls = some s' → ReachableNC cfg s'
+  | [], s, s', hr, h => by simp [runNC] at h; subst h; exact hr
+  | l :: ls, s, s', hr, h => by
+      simp only [runNC] at h
+      split at h
+      · simp at h
+      · rename_i s1 hs1; exact reachableNC_of_runNC ls (.step l hr hs1) h
+
+/-- **C09_nocb_locks_free**: at every synchronisation point of the writer without a callback no
+    callback lock is held and nobody is inside a callback. -/
+theorem C09_nocb_locks_free {cfg : Cfg} (hnc : ncb cfg = true) {s : State} (h : ReachableNC cfg s) :
+    s.cbLock = false ∧ (∀ q, s.cbIn.getD q false = false) ∧ ∀ i : Nat, s.tasks[i]? ≠ some Pc.cbBody := by
+  have hI := reachableNC_NCInv hnc h
+  exact ⟨hI.cb, hI.cbin, fun i hi => (hI.good i _ hi).1 rfl⟩
+
+/-- **C09_nocb_deadlock_free**: the writer without a callback has, in every reachable state in which
+    the save has not returned, an enabled step; its enabled labels are exactly the model's. -/
+theorem C09_nocb_deadlock_free {cfg : Cfg} (wf : WF cfg) (hnc : ncb cfg = true) {s : State}
+    (h : ReachableNC cfg s) :
+    (∀ l, (stepNC cfg s l).isSome = (step cfg s l).isSome) ∧
+    (terminal s = false → ∃ l, (stepNC cfg s l).isSome = true) := by
+  have hI := reachableNC_NCInv hnc h
+  refine ⟨enabledNC_iff hnc hI, fun hnt => ?_⟩
+  obtain ⟨l, hl⟩ := C09_deadlock_free wf (reachableNC_reachable h) hnt
+  exact ⟨l, by rw [enabledNC_iff hnc hI]; exact hl⟩
+
+/-- **C09_nocb_schedule_bounded**: every schedule of the writer without a callback is finite, bounded
+    by the model's variant; one that cannot be extended has returned to the caller. -/
+theorem C09_nocb_schedule_bounded {cfg : Cfg} (wf : WF cfg) (hnc : ncb cfg = true) (ls : List Label)
+    {s : State} (h : runNC cfg (init cfg) ls = some s) :
+    ls.length + variant cfg s ≤ variant cfg (init cfg) ∧
+    ((∀ l, stepNC cfg s l = none) → terminal s = true) := by
+  obtain ⟨ls', hlen, hr⟩ := runNC_run ls h
+  have hb := C09_schedule_bounded wf ls' .init hr
+  refine ⟨by omega, fun hmax => ?_⟩
+  cases ht : terminal s
+  · obtain ⟨l, hl⟩ := (C09_nocb_deadlock_free wf hnc (reachableNC_of_runNC ls .init h)).2 ht
+    rw [hmax l] at hl; simp at hl
+  · rfl
+
+/-! ### non-vacuity (plan, no callback) -/
+
+/-- two tensors (3 and 2 bytes) into one file, 2 workers -/
+def exPlanTs : List TSpec := [⟨0, 3, false, false, [1, 1, 1]⟩, ⟨1, 2, false, false, [2, 2]⟩]
+
+example : (planCfg exPlanTs none none 0 2 4).isSome = true := by decide
+example : (shardsOf exPlanTs none none 0).length ≤ 1 := by decide
+/-- aligned: the second tensor starts at 4096, the start image has 4098 zeros -/
+example : ((planCfg exPlanTs none (some 1) 1 2 4).map fun c => (c.tensors.map (·.off), c.files.map List.length)) =
+    some ([0, 4096], [4098]) := by decide +kernel
+/-- a sharded plan with a nested writer is produced and is well formed -/
+example : ((planCfg (exPlanTs ++ exPlanTs) (some 5) none 0 6 4).map fun c => (c.pools.length, wfb c)) =
+    some (3, true) := by decide
+
+/-- a complete schedule of the planned configuration without a callback: 2 model steps fewer per
+    tensor, the same file -/
+example : ((planCfg exPlanTs none none 0 2 8).bind fun c => (runNC c (init c)
+    [.owner 0 0, .owner 0 0, .take 0, .take 0, .task 0, .task 1, .task 0, .task 1, .task 0, .task 1,
+     .task 0, .task 1, .task 0, .task 1, .owner 0 0, .owner 0 1, .exit 0, .exit 0, .owner 0 0]).map
+      fun s => ((s.pl 0).owner, s.files)) = some (.closed false, [[1, 1, 1, 2, 2]]) := by decide
+
+example : ncb (exNested false) = true := by decide
+
+/-- several failing tensors (`C09_error_quiescent`, `C09_error_reported` quantify over every subset of
+    failing tensors): tensors 1 and 3 fail in two different shards, both shard futures end in error,
+    the caller sees the exception after everything is released -/
+def exTwoFail : Cfg :=
+  { exNested true with
+    tensors := [⟨0, 2, false, false, 2, 0, 0, [1, 1]⟩, ⟨1, 5, true, false, 3, 0, 2, [2, 2, 2, 2, 2]⟩,
+                ⟨0, 2, false, false, 4, 1, 0, [1, 1]⟩, ⟨2, 2, true, false, 5, 1, 2, [3, 3]⟩] }
+
+example : WF exTwoFail := wfb_sound (by decide)
+
+example : (run exTwoFail (init exTwoFail)
+    [.owner 0 0, .owner 0 0, .take 0, .owner 1 0, .owner 1 0, .take 0, .owner 2 0, .owner 2 0, .take 1,
+     .take 1, .take 2, .take 2, .task 0, .task 0, .task 0, .task 0, .task 0, .task 0, .task 0,
+     .owner 1 2, .task 1, .task 1, .task 1, .task 1, .task 1, .task 1, .task 1, .owner 1 3, .exit 1,
+     .exit 1, .owner 1 0, .owner 0 0, .task 2, .task 2, .task 2, .task 2, .task 2, .task 2, .task 2,
+     .owner 2 4, .task 3, .task 3, .task 3, .task 3, .task 3, .task 3, .task 3, .owner 2 5, .exit 2,
+     .exit 2, .owner 2 0, .exit 0, .exit 0, .owner 0 0]).map
+      (fun s => ((s.pl 0).owner, s.tasks, s.inFlight)) =
+    some (.closed true, [.done true, .done false, .done true, .done false], 0) := by decide
 
 end IrVerif.WriterN
